@@ -914,9 +914,15 @@ def check(prop, tier):
                      for r in results for reg in r["regions"]})
     manifest_note = json.load(open(os.path.join(ROOT, "MANIFEST.json"))) if os.path.exists(os.path.join(ROOT, "MANIFEST.json")) else {}
     claim = next((c for c in manifest_note.get("checks", []) if c["property_id"] == prop), {})
+    try:
+        category = json.load(open(os.path.join(HERE, "claims.json"))).get(prop, {}).get("category", "proof")
+    except Exception:
+        category = "proof"
+    if category == "proof" and not proved:
+        category = "other"
     ev = {
         "property_id": prop, "tier": tier, "seed": int(os.environ.get("VERIF_SEED", "0") or 0),
-        "level": "proof" if proved else "other",
+        "level": category,
         "coverage": {
             "obligations": n_ob,
             "discharged": len(proved),
@@ -941,9 +947,12 @@ def check(prop, tier):
         "wall_s": round(wall, 2),
         "violations": len(violations),
     }
-    if not proved:
-        ev["coverage"]["evaluations"] = max(1, len(bounded))
-        ev["coverage"]["distinct_nontrivial"] = len(bounded)
+    # generic keys (required for a non-proof level; informative otherwise): one "evaluation" = one obligation handed to a back end
+    ev["coverage"]["evaluations"] = len(proved) + len(bounded) + len(failed_obs)
+    ev["coverage"]["distinct_nontrivial"] = len({o["id"] for o in proved + bounded})
+    ev["coverage"]["rule"] = ("one case = one named obligation (a Verus ensures-clause / lemma / safety obligation, or one Kani harness over symbolic inputs) "
+                              "generated from /repo's current source; counted as non-trivial when the back end discharged it with its reachability covers satisfied "
+                              "and the unit's vacuity canary (where present) was rejected; ids are distinct by construction")
     json.dump(ev, open(os.path.join(EVID, f"{prop}.json"), "w"), indent=1)
     log(f"[{prop}] proved={len(proved)} bounded={len(bounded)} failed={len(failed_obs)} known={len(known)} undecided={len(undecided)} wall={wall:.1f}s")
     if violations:
